@@ -24,7 +24,7 @@ TECHNIQUE = ("property-based testing (Hypothesis) over datagram SEQUENCES: SNMPv
              "UDP sockets on 127.0.0.1 / ::1); oracle = exactly the valid matching ones are delivered, once, in order, with "
              "content and origin intact")
 RULE = ("case = listener community x sequence of 1..12 datagrams from {valid v2c trap (sysUpTime, snmpTrapOID, 0..8 payload bindings of "
-        "every type), foreign community, SNMPv1 / SNMPv3 datagram, truncation, single bit flip, random bytes} x source addresses "
+        "every type), the same bytes again from another sender, foreign community (incl. ones differing only by non-ASCII octets), SNMPv1 / SNMPv3 datagram, truncation, single bit flip, random bytes} x source addresses "
         "(IPv4 2-tuples, IPv6 4-tuples); non-trivial = a valid datagram arrives after an invalid one, or a valid datagram has >= 3 "
         "payload bindings; distinct = SHA-1 of canonical JSON case")
 ASSUMPTIONS = [
@@ -57,6 +57,8 @@ def datagram_of(item, items):
         sp = vber.enc_usm_params(b"", 0, 0, b"", b"", b"")
         body = vber.enc_scoped_pdu(b"", b"", vber.enc_pdu(vber.PDU_GET, 7, 0, 0, []))
         return vber.enc_v3_message(7, 65507, 4, 3, sp, body)
+    if k == "repeat":
+        return datagram_of(items[item["of"]], items)
     if k == "random":
         return bytes.fromhex(item["hex"])
     if k == "short":
@@ -214,6 +216,8 @@ def run_case(case) -> Result:
         data = datagram_of(item, items)
         c = classify(data, community)
         expect.append(c)
+        if item["kind"] == "repeat" and c[0] == "deliver":
+            classes.add("same_bytes_from_two_senders")
         if c[0] == "deliver":
             if seen_invalid:
                 classes.add("valid_after_invalid")
@@ -271,6 +275,9 @@ def run_case(case) -> Result:
         order = [i for i, _ in got]
         if order != sorted(order):
             return bad("notifications were delivered out of arrival order: %s" % order)
+    delivered_objs = [t for _, t, _ in pairs]
+    if len({id(t) for t in delivered_objs}) != len(delivered_objs):
+        return bad("two deliveries handed the SAME Trap object to the callback (a later datagram overwrites the earlier one's origin)")
     for e, trap, addr in pairs:
         content = e[1]
         try:
@@ -344,7 +351,8 @@ def cases(draw):
         if k == "valid":
             items.append(base)
         elif k == "foreign":
-            items.append(dict(base, kind="foreign", community=draw(st.sampled_from(["private", "Public", "", community + "x"]))))
+            items.append(dict(base, kind="foreign", community=draw(st.sampled_from(
+                ["private", "Public", "", community + "x", community + "\xff", "\xe9" + community, community[:1] + "\x80" + community[1:]]))))
         elif k == "version":
             items.append(dict(base, kind="version", v=draw(st.sampled_from([0, 3])),
                               community=draw(st.sampled_from([community, "other"]))))
@@ -356,7 +364,10 @@ def cases(draw):
             items.append(dict(kind="short", addr=base["addr"]))
         else:
             items.append(dict(kind="random", hex=draw(st.binary(min_size=0, max_size=120)).hex(), addr=base["addr"]))
-    return dict(community=community, items=items)
+        if items[-1]["kind"] == "valid" and draw(st.integers(0, 3)) == 0:
+            # the very same bytes once more, from another sender
+            items.append(dict(kind="repeat", of=len(items) - 1, addr=draw(ADDR)))
+    return dict(community=community, items=items[:14])
 
 
 @st.composite
